@@ -3,7 +3,7 @@ from pv import obs_effects as E
 from pv import obs_classes as C
 
 KEYS = ['parso.python.errors.ErrorFinder._add_syntax_error', 'parso.python.errors.ErrorFinder._add_indentation_error',
-        'parso.normalizer.Issue.__init__']
+        'parso.normalizer.Issue.__init__', 'parso.python.errors.ErrorFinder.add_issue']
 
 
 def _effects():
